@@ -408,6 +408,18 @@ func runC04(o Opts) error {
 						map[string]any{"op": oc.Name, "opcoq": oc.Coq, "cfgcoq": Cfg{}.coq(), "script": sc.coq(), "result": res}, "api-one-bad-field/"+oc.Name, true)
 				}
 			}
+			if round == 0 { // every single-byte field over the small values and the extremes (table lookups live here)
+				for _, f := range fields {
+					if f.Off < 8 || f.Width != 1 {
+						continue
+					}
+					for _, v := range []byte{0, 1, 2, 3, 4, 5, 6, 7, 8, 9, 10, 15, 16, 31, 32, 63, 64, 127, 128, 254, 255} {
+						m := append([]byte{}, base...)
+						m[f.Off] = v
+						try(m, fmt.Sprintf("field %s = %d", f.Name, v))
+					}
+				}
+			}
 			for i, f := range fields {
 				if f.Off < 8 {
 					continue
